@@ -36,6 +36,7 @@ type genCfg struct {
 	ineqSuffix  string // appended to the inequality variable's name (run-specific names defeat process-wide caches)
 	ineqOften   bool
 	propWrites  bool // scripts may write their (copied) step properties
+	errorNode   bool // the spec may define its own (non-terminal) "error" node
 	multiCand   bool // patterns that match in several ways, with guards that accept some candidates (outcome may be arbitrary)
 }
 
@@ -264,7 +265,12 @@ func genSpec(c *sim.Ctx, cfg genCfg) *ref.Spec {
 			n.Branches = append(n.Branches, b)
 		}
 	}
-	for _, name := range names {
+	all := names
+	if cfg.errorNode && c.Chance(1, 3, "usererrornode") {
+		// a user-defined error node that is not terminal
+		all = append(append([]string{}, names...), "error")
+	}
+	for _, name := range all {
 		n := &ref.Node{}
 		switch c.Intn(8, "nodekind") {
 		case 0, 1, 2: // action node
